@@ -781,6 +781,86 @@ fn concat_section(ctx: &Ctx, rng: &mut Rng, rec: &mut Rec, thorough: bool, scale
 	}
 }
 
+/// One TRAMPOLINE forward per route: outer hops [A?, T1], trampoline hops [T1, T2], a real blinded path behind T2.  A peels with
+/// the public peel_payment_onion; T1 — which peel_payment_onion would treat as a receiver — goes through the add-only hook
+/// `fwd_info` (decode_incoming_update_add_htlc_onion + create_fwd_pending_htlc_info, as ChannelManager does) and must get
+/// PendingHTLCRouting::TrampolineForward to T2, unblinded, with the amounts / expiries the sender put into the two onions.
+fn trampoline_section(ctx: &Ctx, rng: &mut Rng, rec: &mut Rec, thorough: bool, scale: u64) {
+	use lightning::blinded_path::payment::{BlindedPaymentPath, Bolt12RefundContext, ForwardTlvs, PaymentConstraints, PaymentContext, PaymentForwardNode, PaymentRelay, ReceiveTlvs};
+	use lightning::routing::router::{BlindedTail, TrampolineHop};
+	use lightning::types::features::{BlindedHopFeatures, Features};
+	let min_delta = lightning::ln::channelmanager::MIN_CLTV_EXPIRY_DELTA as u32;
+	for r in 0..(if thorough { 300 } else { 40 }) * scale {
+		let u = 1 + rng.below(2) as usize;           // outer hops; the last one is T1
+		let mut order: Vec<usize> = (0..MAX_NODES).collect();
+		for i in 0..u + 2 { let j = i + rng.below((MAX_NODES - i) as u64) as usize; order.swap(i, j); }
+		let (t1, t2, rcp) = (order[u - 1], order[u], order[u + 1]);
+		let height = rng.range(1000, 800_000) as u32;
+		let final_value = rng.range(1000, 1 << 32);
+		let (f1, f2) = (rng.below(5000), rng.below(200_000));
+		let (d1, d2) = (min_delta + rng.below(40) as u32, min_delta + 60 + rng.below(100) as u32);
+		let constraints = PaymentConstraints { max_cltv_expiry: height + 1_000_000, htlc_minimum_msat: 1 };
+		let fwd = [PaymentForwardNode { tlvs: ForwardTlvs { short_channel_id: rng.next() | 1, payment_relay: PaymentRelay { cltv_expiry_delta: min_delta as u16, fee_proportional_millionths: 0, fee_base_msat: 0 },
+			payment_constraints: constraints, features: BlindedHopFeatures::empty(), next_blinding_override: None }, node_id: ctx.ids[t2], htlc_maximum_msat: u64::MAX }];
+		let secret = PaymentSecret(rng.bytes32());
+		let payee = ReceiveTlvs { payment_secret: secret, payment_constraints: constraints, payment_context: PaymentContext::Bolt12Refund(Bolt12RefundContext { payment_metadata: None }) };
+		let bp = match BlindedPaymentPath::new(&fwd, ctx.ids[rcp], ctx.kms[rcp].get_receive_auth_key(), payee, u64::MAX, 40, &ctx.kms[rcp], &ctx.secp) { Ok(x) => x, Err(()) => { rec.discarded += 1; continue; } };
+		let mut hops = vec![];
+		for i in 0..u {
+			let last = i == u - 1;
+			hops.push(RouteHop { pubkey: ctx.ids[order[i]], node_features: NodeFeatures::empty(), short_channel_id: (rng.next() | 1) ^ ((i as u64) << 56), channel_features: ChannelFeatures::empty(),
+				fee_msat: if last { f1 + f2 } else { rng.below(100_000) }, cltv_expiry_delta: if last { d1 + d2 } else { min_delta + rng.below(60) as u32 }, maybe_announced_channel: true });
+		}
+		let path = Path { hops, blinded_tail: Some(BlindedTail { trampoline_hops: vec![
+				TrampolineHop { pubkey: ctx.ids[t1], node_features: Features::empty(), fee_msat: f1, cltv_expiry_delta: d1 },
+				TrampolineHop { pubkey: ctx.ids[t2], node_features: Features::empty(), fee_msat: f2, cltv_expiry_delta: d2 }],
+			hops: bp.blinded_hops().to_vec(), blinding_point: bp.blinding_point(), excess_final_cltv_expiry_delta: 0, final_value_msat: final_value }) };
+		let what = format!("trampoline route {} ({} outer hops, trampoline fees {}/{} deltas {}/{}, final value {}, height {})", r, u, f1, f2, d1, d2, final_value, height);
+		let hash = PaymentHash(rng.bytes32());
+		let rof = RecipientOnionFields::secret_only(secret, final_value);
+		let mut sk = rng.bytes32(); sk[0] &= 0x7f; if sk == [0; 32] { sk[31] = 1; }
+		let session = SecretKey::from_slice(&sk).unwrap(); let seed = rng.bytes32();
+		let (onion, amt0, cltv0) = match guarded(AssertUnwindSafe(|| create_payment_onion(&ctx.secp, &path, &session, &rof, height, &hash, &None, None, seed))) {
+			Ok(Ok(x)) => x,
+			Ok(Err(e)) => { *rec.classes.entry(format!("real-only:trampoline-onion-refused:{:?}", e).chars().take(90).collect()).or_insert(0) += 1; continue; },
+			Err(p) => { rec.oracle_fail(format!("sender panicked while building the trampoline onion ({}): {}", what, p)); continue; },
+		};
+		// amounts / expiries arriving at the outer hops
+		let mut in_amt = vec![final_value + f1 + f2; u]; let mut in_cltv = vec![height + d1 + d2; u];
+		for i in (0..u - 1).rev() { in_amt[i] = in_amt[i + 1] + path.hops[i].fee_msat; in_cltv[i] = in_cltv[i + 1] + path.hops[i].cltv_expiry_delta; }
+		if amt0 != in_amt[0] || cltv0 != in_cltv[0] { rec.oracle_fail(format!("first-hop amount/cltv {}/{} expected {}/{} ({})", amt0, cltv0, in_amt[0], in_cltv[0], what)); continue; }
+		let mut cur = onion; let mut ok = true;
+		for j in 0..u - 1 {
+			let msg = UpdateAddHTLC { channel_id: ChannelId([0; 32]), htlc_id: 0, amount_msat: in_amt[j], payment_hash: hash, cltv_expiry: in_cltv[j], skimmed_fee_msat: None, onion_routing_packet: cur.clone(), blinding_point: None, hold_htlc: None, accountable: None };
+			match guarded(AssertUnwindSafe(|| peel_payment_onion(&msg, &ctx.kms[order[j]], &NullLogger, &ctx.secp, in_cltv[j + 1] - 10, false).map_err(|e| format!("{} ({})", reason_name(&e.reason), e.msg)))) {
+				Ok(Ok(info)) => match &info.routing {
+					PendingHTLCRouting::Forward { onion_packet, short_channel_id, blinded, .. } if blinded.is_none() && *short_channel_id == path.hops[j + 1].short_channel_id && info.outgoing_amt_msat == in_amt[j + 1] && info.outgoing_cltv_value == in_cltv[j + 1] => { cur = onion_packet.clone(); },
+					_ => { rec.oracle_fail(format!("outer hop {} of {} did not get its forward instructions", j, what)); ok = false; break; } },
+				other => { rec.oracle_fail(format!("outer hop {} of {} could not peel: {:?}", j, what, other.map(|x| x.map(|_| ())))); ok = false; break; },
+			}
+		}
+		if !ok { continue; }
+		let j = u - 1;
+		let msg = UpdateAddHTLC { channel_id: ChannelId([0; 32]), htlc_id: 0, amount_msat: in_amt[j], payment_hash: hash, cltv_expiry: in_cltv[j], skimmed_fee_msat: None, onion_routing_packet: cur.clone(), blinding_point: None, hold_htlc: None, accountable: None };
+		match guarded(AssertUnwindSafe(|| vh::fwd_info(&msg, &ctx.kms[t1], &NullLogger, &ctx.secp))) {
+			Ok(Ok(info)) => match &info.routing {
+				PendingHTLCRouting::TrampolineForward { node_id, blinded, incoming_cltv_expiry, next_trampoline_amt_msat, next_trampoline_cltv_expiry, .. } => {
+					// the instructions the sender put into the two onions: next trampoline, what it must be sent, what T1 itself was told
+					if *node_id != ctx.ids[t2] || blinded.is_some() || *incoming_cltv_expiry != in_cltv[j] || *next_trampoline_amt_msat != final_value + f2 || *next_trampoline_cltv_expiry != height + d2
+						|| info.outgoing_amt_msat != in_amt[j] || info.outgoing_cltv_value != in_cltv[j] {
+						rec.oracle_fail(format!("trampoline node of {} got next node ok={} blinded={} next amt/cltv {}/{} (expected {}/{}) outer amt/cltv {}/{} (expected {}/{})", what, *node_id == ctx.ids[t2], blinded.is_some(),
+							next_trampoline_amt_msat, next_trampoline_cltv_expiry, final_value + f2, height + d2, info.outgoing_amt_msat, info.outgoing_cltv_value, in_amt[j], in_cltv[j]));
+					}
+					rec.case("fwdblind tfwd none none none none", &format!("{} next=none", if blinded.is_some() { "blinded" } else { "none" }), "fwdblind:trampoline-forward", true);
+				},
+				_ => rec.oracle_fail(format!("trampoline node of {} did not get a TrampolineForward", what)),
+			},
+			Ok(Err(e)) => rec.oracle_fail(format!("trampoline node of {} could not turn its onion into a forward: {}", what, e)),
+			Err(p) => rec.oracle_fail(format!("trampoline node of {} panicked: {}", what, p)),
+		}
+	}
+}
+
 fn main() {
 	let args = &parse_args("c14");
 	let mut rec = Rec::new(&args.out, "c14");
@@ -796,6 +876,7 @@ fn main() {
 	boundary_section(&ctx, &mut rng, &mut rec, args.thorough);
 	blinded_section(&ctx, &mut rng, &mut rec, args.thorough, args.scale);
 	{ let mut rng2 = Rng::new(args.seed ^ 0xC14C_0CA7); concat_section(&ctx, &mut rng2, &mut rec, args.thorough, args.scale); }
+	{ let mut rng3 = Rng::new(args.seed ^ 0x7A3B_0117); trampoline_section(&ctx, &mut rng3, &mut rec, args.thorough, args.scale); }
 
 	for r in 0..n_routes {
 		// ---- choose a route: random length, or the longest that fits (N), or N+1 (oversize) -----
